@@ -1,0 +1,34 @@
+//go:build verif
+
+package lr1
+
+// VerifTrace, when set, receives one event per (state, symbol) visit of the
+// ConstructLALR worklist loop. It exists for the verification harness in
+// /verif and is compiled only with the "verif" build tag.
+var VerifTrace func(ev VerifEvent)
+
+// VerifEvent describes one visit: Goto(from, sym) was computed and either
+// created state To (New) or was merged into the existing state To; Changed
+// tells whether To gained items (and was therefore queued again); Items is
+// the number of items of To afterwards.
+type VerifEvent struct {
+	From    int
+	Sym     string
+	To      int
+	New     bool
+	Changed bool
+	Items   int
+}
+
+func verifTrace(from *ItemSet, sym Term, to *ItemSet, isNew, changed bool) {
+	if VerifTrace != nil {
+		VerifTrace(VerifEvent{
+			From:    from.Index,
+			Sym:     sym.TermName(),
+			To:      to.Index,
+			New:     isNew,
+			Changed: changed,
+			Items:   len(to.Items()),
+		})
+	}
+}
